@@ -642,4 +642,28 @@ def Cache_Cleanup (now : Go.Time) (c : Go.CacheS) : Go.CacheS :=
   | .brk c =>
     c
 
+/-- TokenCache.Set (helpers.go) -/
+def TokenCache_Set (fuel : Nat) (now : Go.Time) (tc : Go.CacheS) (token : Go.Str) (claims : Go.Obj) (expiration : Go.Duration) : Option (Go.CacheS) :=
+  let token := (['t','-'] ++ token)
+  match (Cache_Set fuel now tc token (Go.Any.obj claims) expiration) with
+  | none => none
+  | some tc =>
+    some (tc)
+
+/-- TokenCache.Get (helpers.go) -/
+def TokenCache_Get (now : Go.Time) (tc : Go.CacheS) (token : Go.Str) : (Go.Obj × Bool) × Go.CacheS :=
+  let token := (['t','-'] ++ token)
+  let ((value, found), tc) := (Cache_Get now tc token)
+  if (!found) then
+    ((([] : Go.Obj), false), tc)
+  else
+    let (claims, ok) := Go.asObj value
+    ((claims, ok), tc)
+
+/-- TokenCache.Delete (helpers.go) -/
+def TokenCache_Delete (tc : Go.CacheS) (token : Go.Str) : Go.CacheS :=
+  let token := (['t','-'] ++ token)
+  let tc := (Cache_Delete tc token)
+  tc
+
 end Oidc.Generated.Code
